@@ -68,6 +68,9 @@ Definition judge_inst (fx2 : bool) (c : icase) : verdict :=
 Record acase := {
   a_entry : N;
   a_fails : bool;             (* the input was built to make the call fail midway *)
+  a_preset : bool;            (* history: argparse.Namespace, load_value_mode and os.environ were NOT at their import-time /
+                                 default values when the call started (another class installed, the variable set by an
+                                 enclosing context, an extra environment variable) *)
   a_ok : bool;                (* the call returned *)
   a_globals : list bool;      (* per global: unchanged? *)
   a_args_same : bool;         (* argv list / environ dict unchanged *)
@@ -75,10 +78,12 @@ Record acase := {
                                  default config files: as before *)
 
 Definition judge_aux (c : acase) : verdict :=
-  let r := aux_run (a_entry c) (a_fails c) (mkst [] g0) in
+  let g_start : globals := fun x => if a_preset c && (Nat.eqb x G_ARGPARSE_NS || Nat.eqb x G_LOADMODE || Nat.eqb x G_ENVIRON)
+                                    then 2%N else 0%N in
+  let r := aux_run (a_entry c) (a_fails c) (mkst [] g_start) in
   let s := out_st r in
   let m_ok := match r with Ok _ _ => true | Err _ _ => false end in
-  let m_glob := map (fun x => N.eqb (s_g s x) 0) (seq 0 NGLOBALS) in
+  let m_glob := map (fun x => N.eqb (s_g s x) (g_start x)) (seq 0 NGLOBALS) in
   {| v_model := Bool.eqb m_ok (a_ok c) && list_eqb Bool.eqb m_glob (a_globals c) && a_args_same c && a_defaults_same c;
      v_class := 0;
      v_spec := forallb (fun b => b) (a_globals c) && a_args_same c && a_defaults_same c |}.
